@@ -127,6 +127,8 @@ static std::string pstore(const std::string& pos, int sb, const std::string& tar
   if (pos == "cell") { auto pp = mk<int*>(sb, std::to_string(CELL)); *pp = t; return rep(CELL); }
   if (pos == "cellnull") { auto pp = mk<int*>(sb, std::to_string(CELL)); *pp = nullptr; return rep(CELL); }
   if (pos == "arrel") { auto pa = mk<int* [4]>(sb, std::to_string(CELL)); (*pa)[2] = t; return rep(CELL + 8); }
+  if (pos == "arrelnull") { auto pa = mk<int* [4]>(sb, std::to_string(CELL)); (*pa)[2] = nullptr; return rep(CELL + 8); }
+  if (pos == "fieldnull") { auto ps = mk<vst12>(sb, std::to_string(CELL)); ps->p = nullptr; return rep(CELL + 8); }
   if (pos == "arrwhole") {
     auto pa = mk<int* [4]>(sb, std::to_string(CELL));
     tainted<int* [4], SbxA> w; w[0] = nullptr; w[1] = t; w[2] = t; w[3] = nullptr;
@@ -190,6 +192,31 @@ static std::string fstore(int sb, const std::string& name)
   P32 rep = peek32(sb, CELL);
   tainted<F*, SbxA> back = *pf;
   return "ok rep=" + std::to_string(rep) + " back=" + fname(sb, reinterpret_cast<const void*>(back.UNSAFE_unverified()));
+}
+// function pointers arriving WITH the sandbox context: as the result of a call and as a callback argument
+static const void* g_cb_fn_seen;
+static tainted<int*, SbxA> app_cb_fn(Sb&, tainted<int (*)(int), SbxA> f)
+{
+  g_cb_fn_seen = reinterpret_cast<const void*>(f.UNSAFE_unverified());
+  tainted<int*, SbxA> r = nullptr;
+  return r;
+}
+static std::string fctx(const std::string& pos, int sb, P32 rep)
+{
+  using F = int(int);
+  Sb& S = g_sb[sb];
+  if (pos == "result") {
+    auto r = S.INTERNAL_invoke_with_func_ptr<F*(unsigned)>("gl_id32", reinterpret_cast<void*>(&gl_id32), (unsigned)rep);
+    return "ok " + fname(sb, reinterpret_cast<const void*>(r.UNSAFE_unverified()));
+  }
+  if (pos == "cbarg") {
+    auto cb = S.register_callback(app_cb_fn);
+    g_cb_fn_seen = nullptr;
+    using CB = int* (*)(F*);
+    S.INTERNAL_invoke_with_func_ptr<int*(CB, unsigned)>("gl_callcb_ptr", reinterpret_cast<void*>(&gl_callcb_ptr), cb, (unsigned)rep);
+    return "ok " + fname(sb, g_cb_fn_seen);
+  }
+  return "badop";
 }
 static std::string fload(int sb, P32 rep)
 {
@@ -428,9 +455,32 @@ int main()
         if (t[2] == "ushort4" && t.size() == 8) return starr1<unsigned short, 4>(sb, t[3], t, 4);
         return "badop";
       }
+      if (op == "malf" && t.size() == 5) {   // malloc_in_sandbox<T>(count) when the allocator returns t[3] and the backend does not clamp
+        int sb = atoi(t[1].c_str());
+        vsbx::g_malloc_force = true; vsbx::g_malloc_force_value = (uint64_t)parse_dec(t[3]); vsbx::g_unclamped = true;
+        struct Reset { ~Reset() { vsbx::g_malloc_force = false; vsbx::g_unclamped = false; } } reset;
+        uint32_t n = (uint32_t)parse_dec(t[4]);
+        const void* r;
+        if (t[2] == "char") r = g_sb[sb].malloc_in_sandbox<char>(n).UNSAFE_unverified();
+        else if (t[2] == "int") r = g_sb[sb].malloc_in_sandbox<int>(n).UNSAFE_unverified();
+        else if (t[2] == "llong") r = g_sb[sb].malloc_in_sandbox<long long>(n).UNSAFE_unverified();
+        else if (t[2] == "st") r = g_sb[sb].malloc_in_sandbox<vst12>(n).UNSAFE_unverified();
+        else return "badop";
+        return "ok " + addr(r);
+      }
       if (op == "pstoreb" && t.size() == 3) return pstoreb(t[1], t[2]);
+      if (op == "pfoot" && t.size() == 4) {   // footprint of a pointer store: the bytes around the cell afterwards
+        int sb = atoi(t[2].c_str());
+        std::string r = pstore(t[1], sb, t[3]);
+        if (r == "badop" || r == "abort") return r;
+        static const char* hx = "0123456789abcdef";
+        std::string w; auto* m = reinterpret_cast<const uint8_t*>(base(sb));
+        for (size_t i = CELL - 8; i < CELL + 24; i++) { w.push_back(hx[m[i] >> 4]); w.push_back(hx[m[i] & 15]); }
+        return "ok win=" + w;
+      }
       if (op == "prt" && t.size() == 4) return prt(t[1], atoi(t[2].c_str()), t[3]);
       if (op == "fstore" && t.size() == 3) return fstore(atoi(t[1].c_str()), t[2]);
+      if (op == "fctx" && t.size() == 4) return fctx(t[1], atoi(t[2].c_str()), (P32)(uint64_t)parse_dec(t[3]));
       if (op == "fload" && t.size() == 3) return fload(atoi(t[1].c_str()), (P32)(uint64_t)parse_dec(t[2]));
       if (op == "accept" && t.size() == 4) return accept(t[1], atoi(t[2].c_str()), t[3]);
       if (op == "chain" && t.size() >= 4) return chain(t);
